@@ -155,6 +155,27 @@ def gen(args):
         c = dict(base)
         c.update({"id": "v%d-d%d-n%d-unfitted" % (vi, di, N), "kind": "warm-unfitted", "history": [], "warm_unfitted_accepted": acc})
         out.append(c)
+        if family == "fps" and name != "VoronoiFPS":
+            # a selector whose only fit FAILED (invalid `initialize`) has never been fitted either
+            o = cls(n_to_select=2, **dict(kw0, initialize="no-such-initialisation"))
+            acc2 = False
+            try:
+                with warnings.catch_warnings():
+                    warnings.simplefilter("ignore")
+                    try:
+                        o.fit(Xfit, y) if y is not None else o.fit(Xfit)
+                        failed_first = False
+                    except Exception:
+                        failed_first = True
+                    if failed_first:
+                        o.initialize = 0
+                        o.fit(Xfit, y, warm_start=True) if y is not None else o.fit(Xfit, warm_start=True)
+                        acc2 = True
+            except Exception:
+                acc2 = False
+            c = dict(base)
+            c.update({"id": "v%d-d%d-n%d-failedfirst" % (vi, di, N), "kind": "warm-unfitted", "history": [], "warm_unfitted_accepted": acc2})
+            out.append(c)
     return out
 
 
